@@ -279,10 +279,39 @@ func impliedAtoms(f *ssa.Function, v ssa.Value, val bool, depth int) []Atom {
 // located calls
 
 type located struct {
-	call  ssa.CallInstruction // the anchor (call, go or defer)
+	call  ssa.Instruction // the anchor (a call, go or defer - or any instruction for findInstrDeep)
 	in    *ssa.Function   // the function that contains it
 	chain []*ssa.Call     // call sites leading from the root function down to `in` (empty when in == root)
 	fns   []*ssa.Function // fns[i] contains chain[i]; fns[0] is the root
+}
+
+func (l located) common() *ssa.CallCommon {
+	if ci, ok := l.call.(ssa.CallInstruction); ok {
+		return ci.Common()
+	}
+	return nil
+}
+
+func (l located) value() ssa.Value {
+	if ci, ok := l.call.(ssa.CallInstruction); ok && ci.Value() != nil {
+		return ci.Value()
+	}
+	if v, ok := l.call.(ssa.Value); ok {
+		return v
+	}
+	return nil
+}
+
+// findInstrDeep: instructions satisfying pred in root and in the same-package helpers it calls (depth levels down).
+func findInstrDeep(root *ssa.Function, pred func(l located) bool, depth int) []located {
+	var out []located
+	eachInstrDeep(root, depth, func(in ssa.Instruction, d deepCtx) {
+		l := located{in, d.f, append([]*ssa.Call{}, d.chain...), append([]*ssa.Function{}, d.fns...)}
+		if pred(l) {
+			out = append(out, l)
+		}
+	})
+	return out
 }
 
 // site: the instruction of the root function that stands for the anchor (the anchor itself, or the call of the
@@ -342,7 +371,7 @@ func findDeep(root *ssa.Function, match func(name string, c *ssa.CallCommon) boo
 // findOneDeep: the last matching call in root itself if there is one (the behaviour the rules had), else the
 // unique located call below it.
 func findOneDeep(root *ssa.Function, match func(name string, c *ssa.CallCommon) bool) (located, bool) {
-	var direct ssa.CallInstruction
+	var direct ssa.Instruction
 	for _, ci := range callsIn(root, match) {
 		direct = ci
 	}
